@@ -305,7 +305,7 @@ func c30Scenarios(r *vmc.Result) []c30Scenario {
 		)
 	}
 	var out []c30Scenario
-	for _, mode := range []string{"plain", "getstate", "wake"} {
+	for _, mode := range vmc.Pick(r, []string{"plain", "wake"}, []string{"plain", "getstate", "wake"}) {
 		for _, b := range base {
 			b.OnPoll = mode
 			out = append(out, b)
@@ -318,7 +318,15 @@ func TestVerif_C30(t *testing.T) {
 	r := vmc.New("C30", "model_checking")
 	r.Rule = "per scenario (sequential prefix x 1-3 threads of Sleep/Wake calls x OnPoll behaviour {plain, reads state, re-enters Wake}) all interleavings of the threads, the poll timer and the in-poll duration timer over the real rewritten sleep.Manager (statement granularity inside Poll) up to the deviation bound (preemptions + early timer firings), final Wake by main; non-trivial = executions in which a Wake returned while a Poll was in progress (distinct by event log); outcomes = distinct event logs"
 	r.Assume("scheduling points at every mutex/atomic/select/channel/timer/spawn operation of internal/sleep/sleep.go and before every statement of Manager.Poll; callbacks are harness recorders (the agent's enterSleep/exitSleep/doPoll are not run); the state file is real (scratch directory); PollIntervalJitter 0")
-	dir, err := os.MkdirTemp("", "c30-")
+	// the state file is written thousands of times per second: prefer a memory-backed scratch directory
+	base := ""
+	if fi, err := os.Stat("/dev/shm"); err == nil && fi.IsDir() {
+		base = "/dev/shm"
+	}
+	dir, err := os.MkdirTemp(base, "c30-")
+	if err != nil {
+		dir, err = os.MkdirTemp("", "c30-")
+	}
 	if err != nil {
 		t.Fatal(err)
 	}
